@@ -63,7 +63,8 @@ class C20:
               'fault_eintr_write', 'actor_mkdir_race', 'target_preexisting_truncated', 'dir_mode_one_input_failed', 'dir_mode_nested_skipped_without_r',
               'listing_order_non_sorted', 'locale_cannot_encode', 'relative_path_via_virtual_cwd', 'roundtrip_checked', 'actor_unlink',
               'interrupt_delivered', 'load_equal_checked', 'dump_equal_checked', 'converter_equal_checked', 'bom_input', 'crlf_input',
-              'flipped_byte_input', 'rerun_after_fault_exact', 'edited_in_place_same_size', 'big_input_over_24k', 'output_is_the_input_file', 'blank_line_in_input', 'dumped_a_loaded_document', 'output_directory_removed_externally']
+              'flipped_byte_input', 'rerun_after_fault_exact', 'edited_in_place_same_size', 'big_input_over_24k', 'output_is_the_input_file', 'blank_line_in_input', 'dumped_a_loaded_document', 'output_directory_removed_externally',
+              'non_nfc_input', 'stdout_cannot_encode_progress_line']
 
     # ================================================================ plan
     def gen_plan(self, seed, index, tier):
@@ -215,8 +216,12 @@ class C20:
                     else:
                         fsplan['actor'].append({'trigger': frng.choice(['open', 'listed', 'stat-missing']), 'act': 'create',
                                                 'target': posixpath.join(WORK, 'in', 'unrelated.tmp'), 'skip': frng.randint(0, 3)})
+        # (session 3) two more environment dimensions, drawn last from the env stream so that everything above is unchanged:
+        #  - the encoding of the process's stdout (a terminal or pipe under LANG=C cannot take the arrow of the progress line);
+        #  - input files whose non-ASCII text is NOT in Unicode normal form C (decomposed accents, Angstrom/Ohm signs).
+        env2 = {'stdout': 'utf-8' if erng.random() < 0.85 else erng.choice(['ascii', 'latin-1']), 'nonnfc_inputs': erng.random() < 0.15}
         return {'property': self.PROPERTY, 'config': 'fault_injecting' if faulty else 'fault_free', 'class': klass, 'fs': fsplan, 'cwd': cwd,
-                'docs': docs, 'ops': ops}
+                'docs': docs, 'ops': ops, 'env2': env2}
 
     @staticmethod
     def _gen_opts(rng):
@@ -268,6 +273,8 @@ class C20:
         fs.mkdirs(plan['cwd'])
         fs.cwd = plan['cwd']
         locale = plan['fs'].get('locale', 'utf-8')
+        stdout_enc = (plan.get('env2') or {}).get('stdout', 'utf-8')
+        self._stdout_narrow = stdout_enc != 'utf-8'
         docs = [docgen.Doc.from_json(d) for d in plan['docs']]
         CAT = kp.TokenCategory
         ENC = {'kern': kp.Encoding.normalizedKern, 'ekern': kp.Encoding.eKern, 'bkern': kp.Encoding.bKern, 'bekern': kp.Encoding.bEkern,
@@ -300,6 +307,23 @@ class C20:
                     cut = max(1, len(pad) * (op['path'].__len__() % 5 + 1) // 6)
                     lines = pad[:cut] + lines + pad[cut:]
                     bump(probes, 'big_input_over_24k')
+                if (plan.get('env2') or {}).get('nonnfc_inputs'):
+                    # non-NFC text in a reference record and, if there is a lyrics spine, appended to its first lyric
+                    lines = ['!!!COM: Ange\u0301lique A\u030astro\u0308m \u212b\u2126'] + lines
+                    done = False
+                    for ri, r in enumerate(d.rows):
+                        if r.kind == 'data' and not done and op['kind'] != 'big':
+                            cells = lines[ri + 1].split('\t')
+                            for ci, c in enumerate(r.cells):
+                                if d.headers[c.spine] == '**text' and c.text not in ('.', '') and ci < len(cells):
+                                    cells[ci] = c.text + 'e\u0301\u212b'
+                                    lines[ri + 1] = '\t'.join(cells)
+                                    done = True
+                                    break
+                    bump(probes, 'non_nfc_input')
+                    off1 = 1
+                else:
+                    off1 = 0
                 if op['kind'] == 'with_error':
                     # damage one **kern data cell so that the importer reports an error
                     for ri, r in enumerate(d.rows):
@@ -307,8 +331,9 @@ class C20:
                             cells = [c.text for c in r.cells]
                             ks = [i for i, c in enumerate(r.cells) if d.headers[c.spine] == '**kern']
                             if ks:
+                                cells = lines[ri + off1].split('\t')
                                 cells[ks[0]] = '4c€'
-                                lines[ri] = '\t'.join(cells)
+                                lines[ri + off1] = '\t'.join(cells)
                                 break
                 for b in sorted(op.get('blank') or [], reverse=True):
                     if b < len(lines):
@@ -419,6 +444,9 @@ class C20:
             # the real command-line contract: `python -m kernpy <args>`, in process (runpy executes kernpy/__main__.py as __main__)
             import runpy
             out, err = io.StringIO(), io.StringIO()
+            if stdout_enc != 'utf-8':
+                # what sys.stdout is under LANG=C or on a legacy console: a strict text layer over bytes
+                out = io.TextIOWrapper(io.BytesIO(), encoding=stdout_enc, errors='strict', write_through=True)
             old_argv = sys.argv
             sys.argv = ['kernpy'] + argv
             sys.modules.pop('kernpy.__main__', None)      # run_module warns if a stale copy of the module is already imported
@@ -433,7 +461,7 @@ class C20:
                         status = 'raised ' + type(ex).__name__
             finally:
                 sys.argv = old_argv
-            return status, out.getvalue(), err.getvalue()
+            return status, (out.getvalue() if isinstance(out, io.StringIO) else out.buffer.getvalue().decode(stdout_enc, 'replace')), err.getvalue()
 
         def check_target(opname, target, expected_text, returned_normally, faulted, what):
             """After an operation that should have written ``expected_text`` to ``target``."""
@@ -695,6 +723,11 @@ class C20:
             log.emit('client', 'cli-single', argv, status)
             ref = ref_fn(data)
             got = 'returned' if status == 'returned' else status
+            if self._stdout_narrow and op['verbose'] and status == 'raised UnicodeEncodeError' and ref[0] == 'ok' and encode_or_none(ref[1]) is not None:
+                # the only thing that cannot be encoded is the progress line on a narrow stdout: the conversion itself is not
+                # excused - the output file must be there and exact (the unchanged tree converts first and reports afterwards)
+                got = 'returned'
+                bump(probes, 'stdout_cannot_encode_progress_line')
             if out == inp:
                 bump(probes, 'output_is_the_input_file')     # converting in place: the API result replaces the input
             self._judge_converter('cli-' + mode, ref, got, out, faulted, add_v, check_target, bump, probes)
@@ -752,6 +785,10 @@ class C20:
                 continue
             if status == 'returned' or not faulted:
                 reported = p in reported_paths
+                if reported and self._stdout_narrow and op['verbose'] and not faulted and encode_or_none(ref[1]) is not None and 'codec can' in se:
+                    # reported only because the progress line did not fit the narrow stdout: the file must be there and exact
+                    reported = False
+                    bump(probes, 'stdout_cannot_encode_progress_line')
                 if reported and (faulted or encode_or_none(ref[1]) is None):
                     bump(probes, 'dir_mode_reported_under_fault' if faulted else 'locale_cannot_encode')
                     continue
